@@ -1,46 +1,42 @@
-(** C19 — the command level: HandleSearch on the split command line, and the
-    separate UID SEARCH implementation on the only two program shapes it
-    evaluates (ALL, UID a:b). *)
+(** C19 — the command level: HandleSearch / UID SEARCH (SearchSelectedMailbox) on
+    the command line as connection.go splits it (utils.SplitCommandLine). *)
 From Coq Require Import String Ascii List Bool Arith NArith ZArith Lia.
 From Raven Require Import Base.GoStr Base.GoStrFacts Model.Search Model.SearchText Spec.Search Model.SearchClass
-  Proof.SearchTok Proof.SearchAtoms Proof.SearchEval Proof.SearchExact Proof.SearchMain.
+  Proof.SearchTok Proof.SearchAtoms Proof.SearchEval Proof.SearchExact Proof.SearchMain Proof.SearchLine.
+From Raven Require Model.CmdTokenizer.
 Import ListNotations.
 Local Open Scope Z_scope.
 Local Arguments Ascii.eqb : simpl never.
 
-(** SEARCH / UID SEARCH through SearchSelectedMailbox: the line is split by
-    strings.Fields and the criteria re-joined with single blanks *)
+(** the line is split by SplitCommandLine and the criteria re-joined with single
+    blanks: for every well-formed program that is the printed program again *)
 Lemma selected_exact (by_uid : bool) ks mb :
-  wf_prog ks = true -> mb_ok mb = true -> classify_line ks mb = None ->
-  str_eqb (to_upper (nth 0 (fields (print_prog ks)) [])) (S_ "CHARSET") = false ->
-  search_selected go_text (fields (print_prog ks)) by_uid (to_msgs mb)
+  wf_prog ks = true -> mb_ok mb = true -> classify ks mb = None ->
+  search_selected go_text (Model.CmdTokenizer.split_command_line (print_prog ks)) by_uid (to_msgs mb)
   = ROk (map (if by_uid then m_uid else m_seq)
            (map (to_msg mb) (filter (fun '(i, m) => spec_all (Z.of_nat (length mb)) (max_uid mb) ks i m) (numbered mb)))).
 Proof.
-  intros W Hmb C NC. unfold classify_line in C. destruct (fields_stable (print_prog ks)) eqn:FS; [|discriminate].
-  unfold fields_stable in FS. apply str_eqb_eq in FS.
-  pose proof (print_not_blank ks mb W C) as NB.
-  destruct (fields (print_prog ks)) as [|f1 fs] eqn:F.
-  - cbn [join] in FS. rewrite <- FS in NB. now contradiction NB.
-  - unfold search_selected. cbn [nth] in NC. cbn [length Nat.ltb Nat.leb nth]. rewrite NC, andb_false_r. cbn [andb skipn].
-    rewrite FS, fill_max_to_msgs. now rewrite (evaluate_exact ks mb W Hmb C).
+  intros W Hmb C.
+  pose proof (first_field_not_charset ks mb W C) as NC.
+  pose proof (rejoin_prog ks W) as FS.
+  destruct (split_prog_head ks W) as (f1 & fs & F & _). rewrite F in *.
+  unfold search_selected. cbn [nth] in NC. cbn [length Nat.ltb Nat.leb nth]. rewrite NC, andb_false_r. cbn [andb skipn].
+  rewrite FS, fill_max_to_msgs. now rewrite (evaluate_exact ks mb W Hmb C).
 Qed.
 
 Theorem search_cmd_exact tag cmd ks mb :
-  wf_prog ks = true -> mb_ok mb = true -> classify_line ks mb = None ->
-  str_eqb (to_upper (nth 0 (fields (print_prog ks)) [])) (S_ "CHARSET") = false ->
-  search_cmd (tag :: cmd :: fields (print_prog ks)) (to_msgs mb) = ROk (spec_search_list ks mb).
+  wf_prog ks = true -> mb_ok mb = true -> classify ks mb = None ->
+  search_cmd (tag :: cmd :: Model.CmdTokenizer.split_command_line (print_prog ks)) (to_msgs mb) = ROk (spec_search_list ks mb).
 Proof.
-  intros W Hmb C NC. unfold search_cmd, handle_search. cbn [skipn].
-  rewrite (selected_exact false ks mb W Hmb C NC). unfold spec_search_list. now rewrite map_seq_to_msg.
+  intros W Hmb C. unfold search_cmd, handle_search. cbn [skipn].
+  rewrite (selected_exact false ks mb W Hmb C). unfold spec_search_list. now rewrite map_seq_to_msg.
 Qed.
 
 (** UID SEARCH: the same program, the same entries, their UIDs *)
 Theorem uid_search_cmd_exact tag uid cmd ks mb :
-  wf_prog ks = true -> mb_ok mb = true -> classify_line ks mb = None ->
-  str_eqb (to_upper (nth 0 (fields (print_prog ks)) [])) (S_ "CHARSET") = false ->
-  uid_search_cmd (tag :: uid :: cmd :: fields (print_prog ks)) (to_msgs mb) = ROk (spec_uid_search_list ks mb).
+  wf_prog ks = true -> mb_ok mb = true -> classify ks mb = None ->
+  uid_search_cmd (tag :: uid :: cmd :: Model.CmdTokenizer.split_command_line (print_prog ks)) (to_msgs mb) = ROk (spec_uid_search_list ks mb).
 Proof.
-  intros W Hmb C NC. unfold uid_search_cmd, handle_uid_search. cbn [skipn].
-  rewrite (selected_exact true ks mb W Hmb C NC). unfold spec_uid_search_list. now rewrite map_uid_to_msg.
+  intros W Hmb C. unfold uid_search_cmd, handle_uid_search. cbn [skipn].
+  rewrite (selected_exact true ks mb W Hmb C). unfold spec_uid_search_list. now rewrite map_uid_to_msg.
 Qed.
